@@ -10,173 +10,181 @@ use vh_lite::{read_cases, drive, drive_group, quiet_panics, Out};
 
 mod tc_right__par;
 mod tc_left__topar;
-mod tc_left__init;
-mod tc_left__u64;
-mod tc_nonlin__perm2;
-mod mutual__pari;
-mod mutual__src2;
-mod mutual__permpar;
-mod scc_chain__topar;
-mod diamond__ser;
-mod repeated__pari;
-mod three_dyn__ser;
-mod three_dyn__permpar;
-mod conds__par;
-mod conds__redecl;
-mod expr_args__ser;
-mod multi_head__ser;
-mod multi_head__permpar;
-mod facts__src1;
-mod facts__ren;
-mod opt_cols__run;
-mod opt_cols__runpar;
-mod same_gen__to;
-mod same_gen__strpar;
-mod two_inputs__topar;
-mod two_inputs__init;
-mod two_inputs__u64;
-mod ternary__perm1;
-mod bound_mix__par;
-mod bound_mix__strpar;
-mod join_chain__str;
-mod reach__pari;
-mod self_join3__pari;
-mod lag_right__ren;
-mod lag_left__to;
-mod lag_mid__par;
-mod lag_mid__strpar;
-mod sp_dual__pari;
-mod sp_dual__src2;
-mod sp_dual__permpar;
-mod longest_capped__pari;
-mod set_reach__run;
-mod set_reach__runpar;
-mod cp__par;
-mod lex_lat__par;
-mod lat_multi_improve__ser;
-mod count_paths__ser;
-mod count_paths__src0;
+mod tc_left__redecl;
+mod tc_left__str;
+mod tc_nonlin__perm1;
+mod mutual__par;
+mod mutual__src1;
+mod mutual__perm2;
+mod scc_chain__pari;
+mod scc_chain__u64;
+mod repeated__ser;
+mod repeated__u64;
+mod three_dyn__perm2;
+mod four_dyn__pari;
+mod conds__src1;
+mod conds__perm2;
+mod count_up__pari;
+mod multi_head__perm1;
+mod facts__mrt;
+mod facts__runpar;
+mod facts__strpar;
+mod opt_cols__src1;
+mod cartesian__par;
+mod same_gen__perm2;
+mod not_reorderable__pari;
+mod two_inputs__gen;
+mod two_inputs__srcpar;
+mod wild__ser;
+mod ternary__ren;
+mod bound_mix__perm1;
+mod join_chain__par;
+mod join_chain__strpar;
+mod reach__topar;
+mod lag_right__par;
+mod lag_right__str;
+mod lag_three__ser;
+mod lag_mid__perm1;
+mod lag_late_delta__par;
+mod multi_head_rec__topar;
+mod sp_dual__run;
+mod sp_dual__init;
+mod sp_weighted__par;
+mod longest_capped__topar;
+mod set_reach__gen;
+mod set_reach__srcpar;
+mod cp__pari;
+mod lex_lat__pari;
+mod lat_multi_improve__par;
+mod lat_input__par;
+mod lat_input__src1;
+mod count_paths__par;
+mod count_paths__src1;
 mod neg_basic__par;
 mod neg_basic__src1;
-mod neg_basic__ren;
-mod agg_depth__par;
-mod agg_lattice__topar;
-mod neg_rec_after__exppar;
-mod agg_empty__topar;
-mod agg_const_args__pari;
-mod disj__run;
-mod disj__runpar;
-mod disj_nested__ser;
-mod pat_args__exp;
-mod multi_head_disj__par;
-mod neg_in_disj__exppar;
-mod mac_basic__gen;
-mod mac_basic__exp;
-mod mac_nested__par;
-mod mac_gensym_disj__exppar;
-mod rnd_core_01__pari;
-mod rnd_core_04__par;
-mod rnd_core_07__ser;
-mod rnd_core_09__pari;
-mod rnd_core_12__par;
-mod rnd_core_15__ser;
-mod rnd_core_17__pari;
-mod rnd_core_20__par;
-mod rnd_core_23__ser;
-mod rnd_core_25__pari;
-mod rnd_core_28__par;
-mod rnd_agg_01__ser;
-mod rnd_agg_03__pari;
-mod rnd_agg_06__par;
-mod rnd_agg_09__ser;
-mod rnd_agg_11__pari;
-mod rnd_agg_14__par;
+mod neg_basic__perm2;
+mod agg_depth__ser;
+mod agg_lattice__to;
+mod neg_rec_after__exp;
+mod agg_empty__to;
+mod agg_const_args__par;
+mod disj__topar;
+mod disj__redecl;
+mod disj__exp;
+mod pat_args__par;
+mod rep_expr__exppar;
+mod neg_in_disj__pari;
+mod mac_basic__run;
+mod mac_basic__init;
+mod mac_capture__exp;
+mod mac_gensym_disj__par;
+mod mac_disj__exppar;
+mod rnd_core_03__par;
+mod rnd_core_06__ser;
+mod rnd_core_08__pari;
+mod rnd_core_11__par;
+mod rnd_core_14__ser;
+mod rnd_core_16__pari;
+mod rnd_core_19__par;
+mod rnd_core_22__ser;
+mod rnd_core_24__pari;
+mod rnd_core_27__par;
+mod rnd_core_30__ser;
+mod rnd_agg_02__pari;
+mod rnd_agg_05__par;
+mod rnd_agg_08__ser;
+mod rnd_agg_10__pari;
+mod rnd_agg_13__par;
 
 fn lookup(name: &str) -> fn() -> Box<dyn Driven> {
    match name {
       "tc_right__par" => tc_right__par::make,
       "tc_left__topar" => tc_left__topar::make,
-      "tc_left__init" => tc_left__init::make,
-      "tc_left__u64" => tc_left__u64::make,
-      "tc_nonlin__perm2" => tc_nonlin__perm2::make,
-      "mutual__pari" => mutual__pari::make,
-      "mutual__src2" => mutual__src2::make,
-      "mutual__permpar" => mutual__permpar::make,
-      "scc_chain__topar" => scc_chain__topar::make,
-      "diamond__ser" => diamond__ser::make,
-      "repeated__pari" => repeated__pari::make,
-      "three_dyn__ser" => three_dyn__ser::make,
-      "three_dyn__permpar" => three_dyn__permpar::make,
-      "conds__par" => conds__par::make,
-      "conds__redecl" => conds__redecl::make,
-      "expr_args__ser" => expr_args__ser::make,
-      "multi_head__ser" => multi_head__ser::make,
-      "multi_head__permpar" => multi_head__permpar::make,
-      "facts__src1" => facts__src1::make,
-      "facts__ren" => facts__ren::make,
-      "opt_cols__run" => opt_cols__run::make,
-      "opt_cols__runpar" => opt_cols__runpar::make,
-      "same_gen__to" => same_gen__to::make,
-      "same_gen__strpar" => same_gen__strpar::make,
-      "two_inputs__topar" => two_inputs__topar::make,
-      "two_inputs__init" => two_inputs__init::make,
-      "two_inputs__u64" => two_inputs__u64::make,
-      "ternary__perm1" => ternary__perm1::make,
-      "bound_mix__par" => bound_mix__par::make,
-      "bound_mix__strpar" => bound_mix__strpar::make,
-      "join_chain__str" => join_chain__str::make,
-      "reach__pari" => reach__pari::make,
-      "self_join3__pari" => self_join3__pari::make,
-      "lag_right__ren" => lag_right__ren::make,
-      "lag_left__to" => lag_left__to::make,
-      "lag_mid__par" => lag_mid__par::make,
-      "lag_mid__strpar" => lag_mid__strpar::make,
-      "sp_dual__pari" => sp_dual__pari::make,
-      "sp_dual__src2" => sp_dual__src2::make,
-      "sp_dual__permpar" => sp_dual__permpar::make,
-      "longest_capped__pari" => longest_capped__pari::make,
-      "set_reach__run" => set_reach__run::make,
-      "set_reach__runpar" => set_reach__runpar::make,
-      "cp__par" => cp__par::make,
-      "lex_lat__par" => lex_lat__par::make,
-      "lat_multi_improve__ser" => lat_multi_improve__ser::make,
-      "count_paths__ser" => count_paths__ser::make,
-      "count_paths__src0" => count_paths__src0::make,
+      "tc_left__redecl" => tc_left__redecl::make,
+      "tc_left__str" => tc_left__str::make,
+      "tc_nonlin__perm1" => tc_nonlin__perm1::make,
+      "mutual__par" => mutual__par::make,
+      "mutual__src1" => mutual__src1::make,
+      "mutual__perm2" => mutual__perm2::make,
+      "scc_chain__pari" => scc_chain__pari::make,
+      "scc_chain__u64" => scc_chain__u64::make,
+      "repeated__ser" => repeated__ser::make,
+      "repeated__u64" => repeated__u64::make,
+      "three_dyn__perm2" => three_dyn__perm2::make,
+      "four_dyn__pari" => four_dyn__pari::make,
+      "conds__src1" => conds__src1::make,
+      "conds__perm2" => conds__perm2::make,
+      "count_up__pari" => count_up__pari::make,
+      "multi_head__perm1" => multi_head__perm1::make,
+      "facts__mrt" => facts__mrt::make,
+      "facts__runpar" => facts__runpar::make,
+      "facts__strpar" => facts__strpar::make,
+      "opt_cols__src1" => opt_cols__src1::make,
+      "cartesian__par" => cartesian__par::make,
+      "same_gen__perm2" => same_gen__perm2::make,
+      "not_reorderable__pari" => not_reorderable__pari::make,
+      "two_inputs__gen" => two_inputs__gen::make,
+      "two_inputs__srcpar" => two_inputs__srcpar::make,
+      "wild__ser" => wild__ser::make,
+      "ternary__ren" => ternary__ren::make,
+      "bound_mix__perm1" => bound_mix__perm1::make,
+      "join_chain__par" => join_chain__par::make,
+      "join_chain__strpar" => join_chain__strpar::make,
+      "reach__topar" => reach__topar::make,
+      "lag_right__par" => lag_right__par::make,
+      "lag_right__str" => lag_right__str::make,
+      "lag_three__ser" => lag_three__ser::make,
+      "lag_mid__perm1" => lag_mid__perm1::make,
+      "lag_late_delta__par" => lag_late_delta__par::make,
+      "multi_head_rec__topar" => multi_head_rec__topar::make,
+      "sp_dual__run" => sp_dual__run::make,
+      "sp_dual__init" => sp_dual__init::make,
+      "sp_weighted__par" => sp_weighted__par::make,
+      "longest_capped__topar" => longest_capped__topar::make,
+      "set_reach__gen" => set_reach__gen::make,
+      "set_reach__srcpar" => set_reach__srcpar::make,
+      "cp__pari" => cp__pari::make,
+      "lex_lat__pari" => lex_lat__pari::make,
+      "lat_multi_improve__par" => lat_multi_improve__par::make,
+      "lat_input__par" => lat_input__par::make,
+      "lat_input__src1" => lat_input__src1::make,
+      "count_paths__par" => count_paths__par::make,
+      "count_paths__src1" => count_paths__src1::make,
       "neg_basic__par" => neg_basic__par::make,
       "neg_basic__src1" => neg_basic__src1::make,
-      "neg_basic__ren" => neg_basic__ren::make,
-      "agg_depth__par" => agg_depth__par::make,
-      "agg_lattice__topar" => agg_lattice__topar::make,
-      "neg_rec_after__exppar" => neg_rec_after__exppar::make,
-      "agg_empty__topar" => agg_empty__topar::make,
-      "agg_const_args__pari" => agg_const_args__pari::make,
-      "disj__run" => disj__run::make,
-      "disj__runpar" => disj__runpar::make,
-      "disj_nested__ser" => disj_nested__ser::make,
-      "pat_args__exp" => pat_args__exp::make,
-      "multi_head_disj__par" => multi_head_disj__par::make,
-      "neg_in_disj__exppar" => neg_in_disj__exppar::make,
-      "mac_basic__gen" => mac_basic__gen::make,
-      "mac_basic__exp" => mac_basic__exp::make,
-      "mac_nested__par" => mac_nested__par::make,
-      "mac_gensym_disj__exppar" => mac_gensym_disj__exppar::make,
-      "rnd_core_01__pari" => rnd_core_01__pari::make,
-      "rnd_core_04__par" => rnd_core_04__par::make,
-      "rnd_core_07__ser" => rnd_core_07__ser::make,
-      "rnd_core_09__pari" => rnd_core_09__pari::make,
-      "rnd_core_12__par" => rnd_core_12__par::make,
-      "rnd_core_15__ser" => rnd_core_15__ser::make,
-      "rnd_core_17__pari" => rnd_core_17__pari::make,
-      "rnd_core_20__par" => rnd_core_20__par::make,
-      "rnd_core_23__ser" => rnd_core_23__ser::make,
-      "rnd_core_25__pari" => rnd_core_25__pari::make,
-      "rnd_core_28__par" => rnd_core_28__par::make,
-      "rnd_agg_01__ser" => rnd_agg_01__ser::make,
-      "rnd_agg_03__pari" => rnd_agg_03__pari::make,
-      "rnd_agg_06__par" => rnd_agg_06__par::make,
-      "rnd_agg_09__ser" => rnd_agg_09__ser::make,
-      "rnd_agg_11__pari" => rnd_agg_11__pari::make,
-      "rnd_agg_14__par" => rnd_agg_14__par::make,
+      "neg_basic__perm2" => neg_basic__perm2::make,
+      "agg_depth__ser" => agg_depth__ser::make,
+      "agg_lattice__to" => agg_lattice__to::make,
+      "neg_rec_after__exp" => neg_rec_after__exp::make,
+      "agg_empty__to" => agg_empty__to::make,
+      "agg_const_args__par" => agg_const_args__par::make,
+      "disj__topar" => disj__topar::make,
+      "disj__redecl" => disj__redecl::make,
+      "disj__exp" => disj__exp::make,
+      "pat_args__par" => pat_args__par::make,
+      "rep_expr__exppar" => rep_expr__exppar::make,
+      "neg_in_disj__pari" => neg_in_disj__pari::make,
+      "mac_basic__run" => mac_basic__run::make,
+      "mac_basic__init" => mac_basic__init::make,
+      "mac_capture__exp" => mac_capture__exp::make,
+      "mac_gensym_disj__par" => mac_gensym_disj__par::make,
+      "mac_disj__exppar" => mac_disj__exppar::make,
+      "rnd_core_03__par" => rnd_core_03__par::make,
+      "rnd_core_06__ser" => rnd_core_06__ser::make,
+      "rnd_core_08__pari" => rnd_core_08__pari::make,
+      "rnd_core_11__par" => rnd_core_11__par::make,
+      "rnd_core_14__ser" => rnd_core_14__ser::make,
+      "rnd_core_16__pari" => rnd_core_16__pari::make,
+      "rnd_core_19__par" => rnd_core_19__par::make,
+      "rnd_core_22__ser" => rnd_core_22__ser::make,
+      "rnd_core_24__pari" => rnd_core_24__pari::make,
+      "rnd_core_27__par" => rnd_core_27__par::make,
+      "rnd_core_30__ser" => rnd_core_30__ser::make,
+      "rnd_agg_02__pari" => rnd_agg_02__pari::make,
+      "rnd_agg_05__par" => rnd_agg_05__par::make,
+      "rnd_agg_08__ser" => rnd_agg_08__ser::make,
+      "rnd_agg_10__pari" => rnd_agg_10__pari::make,
+      "rnd_agg_13__par" => rnd_agg_13__par::make,
       _ => panic!("no such program variant in this shard: {}", name),
    }
 }
